@@ -91,6 +91,13 @@ def run(prop, mod, tier, seed, replay, log, broken, workdir, t0):
     if assumptions_out and nblocks != prints:
         broken.append(("O2-audit", "Print Assumptions blocks %d != %d" % (nblocks, prints)))
     proof_ok = not any(w.startswith("O2") for w, _ in broken)
+    coqchk_summary = None
+    if tier == "thorough" and proof_ok and not replay:
+        with core.Lock():
+            ok, coqchk_summary = core.coqchk(prop, log)
+        if not ok:
+            broken.append(("O2-coqchk", coqchk_summary))
+            proof_ok = False
 
     cases, stats = [], {}
     if modelrun is None:
@@ -183,6 +190,8 @@ def run(prop, mod, tier, seed, replay, log, broken, workdir, t0):
     samples = [c.as_json() for c in pick_samples(list(distinct.values()), mod)]
     checker_cmds = "; ".join(cmd for cmd, _ in log)
     trusted = BASE_TRUSTED + list(getattr(mod, "TRUSTED", []))
+    if coqchk_summary:
+        trusted.append("coqchk -o: " + coqchk_summary)
     trusted.append("Print Assumptions for %d property theorems: %s" % (
         prints, "all 'Closed under the global context'" if not axioms else "axioms " + ", ".join(sorted(axioms))))
     ev = {
